@@ -2,8 +2,10 @@
 
 proof  : lean/Pyunicorn/Properties/C05.lean about lean/Pyunicorn/Model/Repr.lean
          (adjacency setter, set_edge_list, node-weight setter, copy, FromIGraph,
-         save/Load, link attributes) and about the definitions gen_arith
-         regenerates from the adjacency setter (n_links, link_density)
+         save/Load incl. save's side effect on the graph object, link attributes,
+         histories of statements on one live object) and about the definitions
+         gen_arith regenerates from the adjacency setter and set_edge_list
+         (n_links, link_density, inferred node count)
 tie    : gen_arith (translate/arith_C05.json) + exact correspondence of the Lean
          model with Network / SpatialNetwork / GeoNetwork objects built through
          every constructor path and post-processing operation
@@ -18,22 +20,27 @@ request grammar (one line, 12 tokens):
             coo    a=M b=N data=rows i,j,v of the stored entries
             edges  a=n_nodes|none data=rows i,j
             igraph a=N data=rows i,j  weights=vertex attribute  attr=edge values
-    ops     comma list of copy ucopy saveload saveload_gml loadspatial
-            loadspatial_gml loadgeo loadgeo_gml edgelist, or -
-answer: N|n_links|density|adjacency|graph edges|weights|total|mean|link attribute
-        or raise:<Exception>
+    ops     comma list of copy ucopy pcopy saveload saveload_gml loadspatial
+            loadspatial_gml loadgeo loadgeo_gml edgelist, the statements of a history on
+            the live object  setw=a_b_k setwnone setattr=a_b_c_k delattr setadj=a_b_c save
+            regraph  (arguments: formula_w / formula_v / formula_a below), or -
+answer: N|n_links|density|adjacency|graph edges|weights|total|mean|link attribute|
+        node_weight_nsi stored on the embedded graph object      or raise:<Exception>
 """
 import contextlib
 import io
 import itertools
+import math
 import os
 import shutil
 import tempfile
+import warnings
 from fractions import Fraction
 
 import numpy as np
 
 ATTR = "link_weights"
+ATTR2 = "corr"      # a second link attribute (oracle only; no underscore: survives GML)
 OBS = ["N", "n_links", "link_density", "adjacency", "graph", "node_weights",
        "total_node_weight", "mean_node_weight", "link_attribute"]
 
@@ -57,14 +64,18 @@ def show_mat(m, f=str):
 
 def exact(x):
     """node weights / link attributes as exact rationals.  The generators only
-    produce multiples of 2**-25 (quarters, float32 cosines); a value is
-    reported as the nearest multiple of 2**-40, which absorbs the 15-digit
-    decimal text of the graphml / gml writers (error < 2**-49) and can never
-    move a generated value (stated tolerance of the comparison: 2**-41)."""
+    produce values with at most 31 significant bits (quarters times a power of
+    two, float32 cosines and their sums); a value is reported rounded to 40
+    significant bits, which absorbs the 15-digit decimal text of the graphml /
+    gml writers (relative error < 2**-48) and can never move a generated value
+    (stated tolerance of the comparison: 2**-41 relative)."""
     x = float(x)
     if x != x or abs(x) == float("inf"):
         return x
-    return Fraction(round(Fraction(x) * 2 ** 40), 2 ** 40)
+    if x == 0:
+        return Fraction(0)
+    m, e = math.frexp(x)
+    return Fraction(round(Fraction(m) * 2 ** 40)) * Fraction(2) ** (e - 40)
 
 
 def canon_quotient(x, num, den):
@@ -76,7 +87,7 @@ def canon_quotient(x, num, den):
     x = float(x)
     if den != 0 and x == x and abs(x) != float("inf"):
         q = Fraction(num) / den
-        if abs(Fraction(x) - q) <= Fraction(1, 10 ** 12) * max(1, abs(q)):
+        if abs(Fraction(x) - q) <= Fraction(1, 10 ** 12) * abs(q):
             return q
     return Fraction(x) if x == x and abs(x) != float("inf") else x
 
@@ -116,10 +127,17 @@ class Case:
         self.V = None             # attribute matrix (Fractions) or None
         self.ops = []
         self.oracle = True        # False: correspondence only (input outside the property)
+        self.adtype = "int"       # dtype of a dense ndarray / of the sparse data
+        self.wform = "list"       # node weights as list | f64 | f32 array
+        self.vform = "f64"        # attribute matrices as float64 | float32 arrays
+        self.zeros = False        # sparse matrix with explicitly stored zeros
+        self.edtype = "int"       # dtype of an ndarray edge list
+        self.autofmt = False      # save / Load with fileformat=None (detected from the extension)
+        self.poke = False         # overwrite the caller's arrays afterwards and observe again
         self.__dict__.update(kw)
 
     def label(self):
-        return f"{self.ctor}:{self.form}"
+        return f"{self.ctor}:{self.form}" + ("+zeros" if self.zeros else "")
 
     def describe(self):
         d = {k: v for k, v in self.__dict__.items() if k not in ("A", "entries")}
@@ -177,6 +195,42 @@ def request(c):
 
 
 # --------------------------------------------------------------------------
+# arguments of the history statements: small formulas evaluated here and in the
+# Lean driver (formulaW / formulaV / formulaA)
+# --------------------------------------------------------------------------
+
+def lo_hi(directed, i, j):
+    return (i, j) if directed else (min(i, j), max(i, j))
+
+
+def formula_w(N, a, b, k):
+    return [Fraction((a * i + b) % 13, 4) * Fraction(2) ** k for i in range(N)]
+
+
+def formula_v(N, directed, a, b, c, k):
+    def v(i, j):
+        lo, hi = lo_hi(directed, i, j)
+        return Fraction((a * lo + b * hi + c) % 17 - 5, 4) * Fraction(2) ** k
+    return [[v(i, j) for j in range(N)] for i in range(N)]
+
+
+def formula_a(N, directed, a, b, c):
+    def x(i, j):
+        lo, hi = lo_hi(directed, i, j)
+        return 1 if i != j and (a * lo + b * hi + c) % 5 < 2 else 0
+    return [[x(i, j) for j in range(N)] for i in range(N)]
+
+
+def second_attr(V):
+    """the values of the second link attribute of a case (exact in float32, too)"""
+    return [[-x / 2 for x in row] for row in V]
+
+
+def op_args(op):
+    return [int(t) for t in op.split("=")[1].split("_")]
+
+
+# --------------------------------------------------------------------------
 # the implementation
 # --------------------------------------------------------------------------
 
@@ -207,29 +261,34 @@ class Impl:
     def construct(self, c):
         sp = self.sp
         kw = {}
-        w = None if c.w is None else [float(x) for x in c.w]
+        self.caller = []          # the caller's arrays (see `poke`)
+        w = None if c.w is None else self.weights(c, c.w)
+        self.caller.append(w)
+        adt = {"int": int, "bool": bool, "int8": np.int8, "uint8": np.uint8, "int64": np.int64,
+               "f32": np.float32, "f64": np.float64}[c.adtype]
         if c.ctor == "igraph":
             g = self.igraph.Graph(n=c.N, edges=[tuple(e) for e in c.edges],
                                   directed=c.directed)
             if w is not None:
-                g.vs["node_weight_nsi"] = w
+                g.vs["node_weight_nsi"] = [float(x) for x in c.w]
             if c.V is not None:
                 g.es[ATTR] = [float(c.V[i][j]) for i, j in c.edges]
+                g.es[ATTR2] = [float(second_attr(c.V)[i][j]) for i, j in c.edges]
             return self.Network.FromIGraph(g, silence_level=3)
         if c.ctor == "dense":
-            kw["adjacency"] = c.A if c.form == "list" else np.array(c.A, dtype=int).reshape(c.shape)
+            kw["adjacency"] = c.A if c.form == "list" else np.array(c.A, dtype=adt).reshape(c.shape)
         elif c.ctor == "coo":
             r = [e[0] for e in c.entries]
             cc = [e[1] for e in c.entries]
             v = [e[2] for e in c.entries]
-            m = sp.coo_matrix((np.array(v, dtype=int), (np.array(r, dtype=int),
+            m = sp.coo_matrix((np.array(v, dtype=adt), (np.array(r, dtype=int),
                                                        np.array(cc, dtype=int))), shape=c.shape)
             if c.form in ("csc", "csr", "lil", "dok"):
                 m = getattr(m, "to" + c.form)()
             kw["adjacency"] = m
         else:
             kw["edge_list"] = [list(e) for e in c.edges] if c.form != "ndarray" \
-                else np.array(c.edges, dtype=int).reshape(-1, 2)
+                else np.array(c.edges, dtype=np.dtype(c.edtype)).reshape(-1, 2)
             if c.cls == "net":
                 kw["n_nodes"] = c.n_nodes
             # SpatialNetwork / GeoNetwork: the grid (of c.n_nodes nodes) supplies it
@@ -244,21 +303,82 @@ class Impl:
                                   silence_level=3, **kw)
         if c.cls != "net" and w is not None:
             net.node_weights = w          # the constructors of these classes take no weights
+        self.caller += [kw.get("adjacency"), kw.get("edge_list")]
         if c.V is not None:
-            net.set_link_attribute(ATTR, np.array([[float(x) for x in r] for r in c.V]))
+            m1, m2 = self.matrix(c, c.V), self.matrix(c, second_attr(c.V))
+            net.set_link_attribute(ATTR, m1)
+            net.set_link_attribute(ATTR2, m2)
+            self.caller += [m1, m2]
         return net
 
-    def apply(self, net, op):
+    def poke(self):
+        """overwrite, in place, every array the caller handed to the constructor"""
+        n = 0
+        for a in self.caller:
+            if isinstance(a, np.ndarray):
+                a[...] = 3
+                n += 1
+            elif self.sp.issparse(a) and hasattr(a, "data") and isinstance(a.data, np.ndarray) \
+                    and a.data.dtype != object:
+                a.data[...] = 0
+                n += 1
+        return n
+
+    @staticmethod
+    def weights(c, w):
+        w = [float(x) for x in w]
+        if c.wform == "f64":
+            return np.array(w, dtype=np.float64)
+        if c.wform == "f32":
+            return np.array(w, dtype=np.float32)
+        return w
+
+    @staticmethod
+    def matrix(c, V):
+        return np.array([[float(x) for x in r] for r in V],
+                        dtype=np.float32 if c.vform == "f32" else np.float64)
+
+    def apply(self, net, op, c):
         if op == "copy":
             return net.copy()
+        if op.startswith("setw="):
+            net.node_weights = self.weights(c, formula_w(net.N, *op_args(op)))
+            return net
+        if op == "setwnone":
+            net.node_weights = None
+            return net
+        if op.startswith("setattr="):
+            net.set_link_attribute(ATTR, self.matrix(c, formula_v(net.N, net.directed, *op_args(op))))
+            return net
+        if op == "delattr":
+            net.del_link_attribute(ATTR)
+            return net
+        if op.startswith("setadj="):
+            A = np.array(formula_a(net.N, net.directed, *op_args(op)))
+            if c.ctor == "coo":     # sparse, in the storage format of the case
+                f = c.form if c.form in ("csc", "csr", "lil", "dok", "coo") else "csr"
+                net.adjacency = getattr(self.sp.coo_matrix(A), "to" + f)()
+            else:
+                net.adjacency = A if c.form != "list" else A.tolist()
+            return net
+        if op == "regraph":
+            return self.Network.FromIGraph(net.graph, silence_level=3)
+        if op.startswith("save:"):
+            fmt = op.split(":")[1]
+            self.Network.save(net, self.path(fmt), None if c.autofmt else fmt)
+            return net
         if op == "ucopy":
             return net.undirected_copy()
+        if op == "pcopy":
+            return net.permuted_copy(list(range(net.N)))
         if op == "edgelist":
             return self.Network(edge_list=net.edge_list(), n_nodes=net.N,
                                 directed=net.directed, node_weights=net.node_weights,
                                 silence_level=3)
         kind, fmt = op.split(":")
         p = self.path(fmt)
+        if c.autofmt:
+            fmt = None              # non-default call: format detected from the extension
         if kind == "saveload":
             self.Network.save(net, p, fmt)
             return self.Network.Load(p, fmt, silence_level=3)
@@ -271,11 +391,16 @@ class Impl:
     def run(self, c):
         """-> (observables dict | None, answer string)"""
         try:
-            with contextlib.redirect_stdout(io.StringIO()):
+            with contextlib.redirect_stdout(io.StringIO()), warnings.catch_warnings():
+                warnings.simplefilter("ignore")     # igraph: "there is already an 'id' attribute"
                 net = self.construct(c)
                 for op in c.ops:
-                    net = self.apply(net, op)
+                    net = self.apply(net, op, c)
                 o = observe(net)
+                self.poked = None
+                if c.poke and c.ctor != "igraph" and self.poke():
+                    # the network must not depend on arrays the caller still holds
+                    self.poked = observe(net)
         except Exception as e:  # noqa
             return None, "raise:" + type(e).__name__, e
         return o, show_obs(o), None
@@ -301,6 +426,16 @@ def observe(net):
         o["link_attribute"] = [[exact(x) for x in row] for row in net.link_attribute(ATTR)]
     except KeyError:
         o["link_attribute"] = None
+    try:
+        o["link_attribute2"] = [[exact(x) for x in row] for row in net.link_attribute(ATTR2)]
+    except KeyError:
+        o["link_attribute2"] = None
+    o["link_attribute_names"] = sorted(net.graph.es.attribute_names())
+    # what the embedded graph object carries (written by save, read by FromIGraph / Load)
+    if "node_weight_nsi" in net.graph.vs.attribute_names():
+        o["gvw"] = [exact(x) for x in net.graph.vs["node_weight_nsi"]]
+    else:
+        o["gvw"] = None
     return o
 
 
@@ -310,7 +445,8 @@ def show_obs(o):
         show_mat(o["adjacency"]), show_edges(o["graph"]),
         "None" if o["node_weights"] is None else show_rats(o["node_weights"]),
         show_rat(o["total_node_weight"]), show_rat(o["mean_node_weight"]),
-        "none" if o["link_attribute"] is None else show_mat(o["link_attribute"], show_rat)])
+        "none" if o["link_attribute"] is None else show_mat(o["link_attribute"], show_rat),
+        "none" if o["gvw"] is None else show_rats(o["gvw"])])
 
 
 MODEL_OPS = {"saveload:gml": "saveload_gml", "loadspatial:gml": "loadspatial_gml",
@@ -318,7 +454,7 @@ MODEL_OPS = {"saveload:gml": "saveload_gml", "loadspatial:gml": "loadspatial_gml
 
 
 def model_request(c):
-    ops = [MODEL_OPS.get(op, op.split(":")[0]) for op in c.ops]
+    ops = [MODEL_OPS.get(op, op.split(":")[0]) for op in c.ops]    # save:<fmt> -> save
     c2 = Case(**{**c.__dict__, "ops": ops})
     return request(c2)
 
@@ -329,46 +465,78 @@ def model_request(c):
 
 def expected(c):
     """Observables every representation of the specified simple graph must
-    show, or None when the input is outside the property (malformed)."""
+    show after the specified history, or None when the input is outside the
+    property (malformed).  Computed from the specification alone: the edge set,
+    the weight vector, the attribute matrix and the statements executed."""
     N, directed = c.N, c.directed
     pairs = set((i, j) for i, j in c.edges)
     if any(i == j or not (0 <= i < N and 0 <= j < N) for i, j in pairs):
         return None
     w = c.w
-    attr = c.V is not None
-    for op in c.ops:
-        if op == "ucopy":
-            directed = False
-            attr = "skip"
-        if op == "edgelist":
-            attr = "skip"
-    if not directed:
-        pairs |= set((j, i) for i, j in pairs)
-    A = [[1 if (i, j) in pairs else 0 for j in range(N)] for i in range(N)]
-    nl = len(pairs) if directed else len(pairs) // 2
-    e = {"N": N, "n_links": nl, "adjacency": A, "sp_A": A,
-         "graph": canon_edges(pairs, directed), "directed": directed}
-    if N >= 2:
-        e["link_density"] = Fraction(nl, N * (N - 1)) if directed else Fraction(2 * nl, N * (N - 1))
     if c.cls == "geo" and w is None:
         cl = np.cos(np.array(c.lats, dtype=np.float32) * np.pi / 180)
         wf = [np.ones(N), cl, np.square(cl)][c.wtype]
         w = [exact(x) for x in wf]
     if w is None:
         w = [Fraction(1)] * N
+    w = list(w)
+    V = c.V                       # None: the attribute does not exist
+    V2 = None if c.V is None else second_attr(c.V)      # the second attribute
+    # node weights stored on the embedded graph object (None: nothing stored)
+    gvw = list(c.w) if (c.ctor == "igraph" and c.w is not None) else None
+    if not directed:
+        pairs |= set((j, i) for i, j in pairs)
+    for op in c.ops:
+        kind = op.split(":")[0].split("=")[0]
+        if kind == "ucopy":
+            directed = False
+            pairs |= set((j, i) for i, j in pairs)
+            V, V2, gvw = None, None, None
+        elif kind in ("edgelist", "pcopy"):
+            V, V2, gvw = None, None, None
+        elif kind == "copy":
+            gvw = None
+        elif kind in ("saveload", "loadspatial", "loadgeo", "save"):
+            gvw = list(w)         # save stores the current weights, the file holds them
+        elif kind == "setw":
+            w = formula_w(N, *op_args(op))
+        elif kind == "setwnone":
+            w = [Fraction(1)] * N
+        elif kind == "setattr":
+            V = formula_v(N, directed, *op_args(op))
+        elif kind == "delattr":
+            V = None
+        elif kind == "setadj":
+            A2 = formula_a(N, directed, *op_args(op))
+            pairs = set((i, j) for i in range(N) for j in range(N) if A2[i][j])
+            V, V2, gvw = None, None, None
+        elif kind == "regraph":
+            w = list(gvw) if gvw is not None else [Fraction(1)] * N
+    A = [[1 if (i, j) in pairs else 0 for j in range(N)] for i in range(N)]
+    nl = len(pairs) if directed else len(pairs) // 2
+    e = {"N": N, "n_links": nl, "adjacency": A, "sp_A": A,
+         "graph": canon_edges(pairs, directed), "directed": directed}
+    if N >= 2:
+        e["link_density"] = Fraction(nl, N * (N - 1)) if directed else Fraction(2 * nl, N * (N - 1))
     e["node_weights"] = list(w)
     e["total_node_weight"] = sum(w, Fraction(0))
     if N >= 1:
         e["mean_node_weight"] = e["total_node_weight"] / N
-    if attr == "skip":
-        pass
-    elif attr:
-        e["link_attribute"] = [[c.V[i][j] if A[i][j] else Fraction(0) for j in range(N)]
+    e["gvw"] = gvw
+    if V is not None:
+        e["link_attribute"] = [[V[i][j] if A[i][j] else Fraction(0) for j in range(N)]
                                for i in range(N)]
     elif pairs:
         e["link_attribute"] = None
     else:       # no link: link_attribute(name) is the zero matrix for every name
         e["link_attribute"] = [[Fraction(0)] * N for _ in range(N)]
+    if V2 is not None:
+        e["link_attribute2"] = [[V2[i][j] if A[i][j] else Fraction(0) for j in range(N)]
+                                for i in range(N)]
+    elif pairs:
+        e["link_attribute2"] = None
+    else:
+        e["link_attribute2"] = [[Fraction(0)] * N for _ in range(N)]
     return e
 
 
@@ -378,14 +546,15 @@ def close(a, b):
     if a is None or b is None or isinstance(a, (bool, str)) or isinstance(b, (bool, str)):
         return a == b
     try:
-        return abs(Fraction(a) - Fraction(b)) <= Fraction(1, 10 ** 9) * max(1, abs(Fraction(b)))
+        return abs(Fraction(a) - Fraction(b)) <= Fraction(1, 10 ** 9) * abs(Fraction(b))
     except (TypeError, ValueError, OverflowError):
         return False
 
 
 def first_difference(o, e):
     for k in ["N", "directed", "n_links", "link_density", "adjacency", "sp_A", "graph",
-              "node_weights", "total_node_weight", "mean_node_weight", "link_attribute"]:
+              "node_weights", "total_node_weight", "mean_node_weight", "link_attribute",
+              "link_attribute2", "gvw"]:
         if k in e and not close(o[k], e[k]):
             return k
     if o["graph_n"] != o["N"] or o["graph_directed"] != o["directed"]:
@@ -402,7 +571,7 @@ def judge(ctx, c, o, ans, exc):
     op = c.ops[-1] if c.ops else "-"
     fmt = op.split(":")[1] if ":" in op else "-"
     size = "N<=1" if c.N <= 1 else "N>=2"
-    base = {"cls": c.cls, "ctor": c.label(), "op": op.split(":")[0], "format": fmt}
+    base = {"cls": c.cls, "ctor": c.label(), "op": op.split(":")[0].split("=")[0], "format": fmt}
     rep = {"case": c.describe(), "request": model_request(c)}
     if o is None:
         sig = dict(base, kind="raise", error=ans.split(":")[1], size=size)
@@ -410,7 +579,12 @@ def judge(ctx, c, o, ans, exc):
                       f"{ans.split(':')[1]}: {exc}", dict(rep, observed=ans))
         return
     k = first_difference(o, e)
-    if k is not None:
+    ks = [] if k is None else [k]
+    # the second attribute is judged on its own (its name survives GML, where the first
+    # difference is one of the known losses of underscored names)
+    if k != "link_attribute2" and not close(o["link_attribute2"], e["link_attribute2"]):
+        ks.append("link_attribute2")
+    for k in ks:
         sig = dict(base, kind="mismatch", observable=k, size=size)
         ctx.fail(sig, f"{c.cls} {c.label()} ops={c.ops}: {k} = {o.get(k)!r}, the specified "
                       f"graph has {e.get(k)!r}",
@@ -451,11 +625,15 @@ def weights_for(rng, N, kind):
         return [Fraction(1)] * N
     if kind == "zeros":
         return [Fraction(0)] * N
+    if kind == "scaled":      # extreme but exact: quarters times a power of two
+        sc = Fraction(2) ** rng.choice([-40, -30, -17, 17, 30, 40])
+        return [Fraction(rng.randrange(0, 41), 4) * sc for _ in range(N)]
     return [Fraction(rng.randrange(0, 41), 4) for _ in range(N)]
 
 
 def attr_for(rng, N, directed):
-    V = [[Fraction(rng.randrange(-12, 40), 4) for _ in range(N)] for _ in range(N)]
+    sc = Fraction(2) ** rng.choice([0, 0, 0, -40, -21, 21, 40])
+    V = [[Fraction(rng.randrange(-12, 40), 4) * sc for _ in range(N)] for _ in range(N)]
     if not directed:
         for i in range(N):
             for j in range(i):
@@ -485,10 +663,42 @@ def orient(rng, edges, directed, how):
 FORMATS = ["graphml", "graphmlz", "pickle", "gml"]
 
 
+def history_ops(rng, first=None):
+    """a multi-step history on one live object (continuing with the loaded / copied object
+    where a statement returns a new one); GML (known findings) is kept out of histories"""
+    ops = [first] if first else []
+    fm = lambda: rng.choice(FORMATS[:3])  # noqa
+    for _ in range(rng.randrange(2, 8)):
+        r = rng.random()
+        if r < 0.20:
+            ops.append("setw=%d_%d_%d" % (rng.randrange(1, 13), rng.randrange(0, 13),
+                                          rng.choice([0, 0, 0, 1, -3, -30, 24, 40, -40])))
+        elif r < 0.24:
+            ops.append("setwnone")
+        elif r < 0.40:
+            ops.append("setattr=%d_%d_%d_%d" % (rng.randrange(0, 17), rng.randrange(0, 17),
+                                                rng.randrange(0, 17), rng.choice([0, 0, 0, -35, 35])))
+        elif r < 0.45:
+            ops.append("delattr")
+        elif r < 0.62:
+            ops.append("saveload:" + fm())
+        elif r < 0.74:
+            ops.append("save:" + fm())
+        elif r < 0.84:
+            ops.append("copy")
+        elif r < 0.92:
+            ops.append("regraph")
+        elif r < 0.97:
+            ops.append("setadj=%d_%d_%d" % (rng.randrange(0, 5), rng.randrange(0, 5), rng.randrange(0, 5)))
+        else:
+            ops.append(rng.choice(["ucopy", "edgelist", "pcopy"]))
+    return ops
+
+
 def cases_for(rng, N, directed, edges, quick, rich):
     """all construction paths of one specified graph"""
     out = []
-    wk = rng.choice(["rand", "rand", "rand", "none", "ones", "zeros"])
+    wk = rng.choice(["rand", "rand", "rand", "none", "ones", "zeros", "scaled", "scaled"])
     w = weights_for(rng, N, wk)
     V = attr_for(rng, N, directed) if rng.random() < 0.7 else None
     A = adjacency_of(N, directed, edges)
@@ -497,7 +707,12 @@ def cases_for(rng, N, directed, edges, quick, rich):
     spec_edges = list(edges)
 
     def add(**kw):
-        out.append(Case(**{**base, "edges": spec_edges, **kw}))
+        # how the caller's arrays are handed over: dtype of matrices, float width of
+        # weights and attribute matrices (does not change the specified network)
+        var = dict(adtype=rng.choice(["int", "int", "bool", "int8", "uint8", "int64", "f32", "f64"]),
+                   wform=rng.choice(["list", "f64", "f32"]), vform=rng.choice(["f64", "f64", "f32"]),
+                   autofmt=rng.random() < 0.25, poke=rng.random() < (1.0 if quick else 0.3))
+        out.append(Case(**{**base, "edges": spec_edges, **var, **kw}))
 
     dense = dict(ctor="dense", shape=(N, N), A=A)
     forms = ["csc", "csr", "coo", "lil", "dok"]
@@ -509,6 +724,12 @@ def cases_for(rng, N, directed, edges, quick, rich):
         if f == "coo":
             rng.shuffle(e2)
         add(ctor="coo", form=f, shape=(N, N), entries=e2)
+    # sparse matrices with explicitly stored zeros (also on the diagonal), any order
+    for f in (["csc", "csr", "coo"] if rich else [rng.choice(["csc", "csr", "coo"])]):
+        zs = [(i, j, 0) for i in range(N) for j in range(N) if not A[i][j] and rng.random() < 0.3]
+        e2 = list(ents) + zs
+        rng.shuffle(e2)
+        add(ctor="coo", form=f, shape=(N, N), entries=e2, zeros=True)
     # edge lists
     hows = ["upper", "lower", "mixed", "both", "dup"] if not directed else ["upper", "dup"]
     for how in (hows if rich else rng.sample(hows, min(3, len(hows)))):
@@ -517,7 +738,8 @@ def cases_for(rng, N, directed, edges, quick, rich):
         if es and max(max(e) for e in es) == N - 1 and rng.random() < 0.5:
             add(ctor="edges", form=how + ":auto", edges=es, n_nodes=None)
     if edges and rng.random() < 0.3:
-        add(ctor="edges", form="ndarray", edges=list(edges), n_nodes=N)
+        add(ctor="edges", form="ndarray", edges=list(edges), n_nodes=N,
+            edtype=rng.choice(["int", "int32", "uint16", "int64"]))
     # igraph objects
     add(ctor="igraph", form="graph", edges=list(edges))
     add(ctor="igraph", form="graph-noweights", edges=list(edges), w=None)
@@ -525,12 +747,28 @@ def cases_for(rng, N, directed, edges, quick, rich):
     add(form="list", ops=["copy"], **dense)
     add(form="list", ops=["ucopy"], **dense)
     add(form="list", ops=["edgelist"], **dense)
+    add(form="ndarray", ops=["pcopy"], **dense)
     add(ctor="edges", form="upper", edges=list(edges), n_nodes=N, ops=["copy"])
     add(ctor="igraph", form="graph", edges=list(edges), ops=["copy"])
     for fmt in fmts:
         add(form="list", ops=["saveload:" + fmt], **dense)
     add(ctor="igraph", form="graph", edges=list(edges), ops=["saveload:" + rng.choice(fmts[:3] if "gml" in fmts[3:] else fmts)])
     add(form="list", ops=["copy", "saveload:" + rng.choice(["graphml", "pickle"]), "copy"], **dense)
+    # multi-step histories on one live object
+    for _ in range(2 if rich else 1):
+        start = rng.choice(["dense", "dense", "edges", "igraph", "coo"])
+        hops = history_ops(rng)
+        if start == "dense":
+            add(form=rng.choice(["list", "ndarray"]), ops=hops, **dense)
+        elif start == "edges":
+            add(ctor="edges", form="upper", edges=list(edges), n_nodes=N, ops=hops)
+        elif start == "igraph":
+            add(ctor="igraph", form="graph", edges=list(edges), ops=hops)
+        else:
+            add(ctor="coo", form=rng.choice(forms), shape=(N, N), entries=list(ents), ops=hops)
+    if rng.random() < (0.3 if not rich else 1.0):
+        add(cls="spatial", form="list", **dense,
+            ops=history_ops(rng, rng.choice([None, "loadspatial:" + rng.choice(FORMATS[:3])])))
     # spatial / geo
     nov = dict(w=None)
     add(cls="spatial", form="list", **dense, **nov)
@@ -546,6 +784,9 @@ def cases_for(rng, N, directed, edges, quick, rich):
     add(cls="geo", wtype=1, lats=lats, form="list", ops=["copy"], **dense, **nov)
     add(cls="geo", wtype=rng.choice((0, 1, 2)), lats=lats, form="list",
         ops=["loadgeo:" + rng.choice(fmts)], **dense)
+    if rng.random() < (0.3 if not rich else 1.0):
+        add(cls="geo", wtype=rng.choice((0, 1)), lats=lats, form="list", **dense, **nov,
+            ops=history_ops(rng, rng.choice([None, "loadgeo:" + rng.choice(FORMATS[:3])])))
     return out
 
 
@@ -593,13 +834,17 @@ def run(ctx):
                 "(empty / single link / sparse / half / dense / complete / with isolated nodes) on "
                 "up to %d nodes, each through dense list, ndarray, scipy csc/csr/coo/lil/dok, edge "
                 "lists (one / other / mixed / both orientations, repeated entries, n_nodes given or "
-                "inferred), igraph object, copy, undirected_copy, edge_list() round trip, "
-                "save->Load in graphml/graphmlz/pickle/gml, Network / SpatialNetwork / GeoNetwork; "
+                "inferred), sparse matrices with stored zeros, igraph object, copy, undirected_copy, "
+                "permuted_copy(identity), edge_list() round trip, save->Load in "
+                "graphml/graphmlz/pickle/gml (format given or detected), histories of 2-8 statements "
+                "on one live object (reassign weights / attribute / adjacency, save, load, copy, "
+                "FromIGraph(net.graph)), caller arrays of several dtypes and float widths, "
+                "power-of-two rescalings, Network / SpatialNetwork / GeoNetwork; "
                 "distinct = distinct request line; non-trivial = at least 2 nodes and one link"
                 % ((3, 12) if quick else (4, 30)))
     ctx.assumptions.append(
         "igraph's graphml / graphmlz / pickle readers return the graph that was written "
-        "(vertex and edge attributes included): hypothesis `hstore` of theorem saveLoad_id, "
+        "(vertex and edge attributes included): hypothesis `hstore` of theorems saveLoad_ofGraph / statement_spec / history_spec / saveLoad_coherent, "
         "exercised by the save->Load correspondence")
     ctx.proofs()
     tmp = tempfile.mkdtemp(prefix="C05-")
@@ -613,7 +858,7 @@ def run(ctx):
                     gs = rng.sample(gs, 64 if quick else 400)
                 specs += [(N, d, g, N <= 2 or rng.random() < (0.15 if quick else 0.3)) for g in gs]
         kinds = ["empty", "single", "sparse", "half", "dense", "full", "isolated"]
-        for _ in range(110 if quick else 1500):
+        for _ in range(110 if quick else 1000):
             N = rng.randrange(2, 13 if quick else 31)
             d = rng.random() < 0.5
             specs.append((N, d, random_graph(rng, N, d, rng.choice(kinds)),
@@ -628,19 +873,31 @@ def run(ctx):
 
         reqs, answers, results = [], [], []
         for c in cases:
-            if c.cls == "geo" and c.wtype == 2 and c.w is None:
-                corr = False      # float32 squares are not the exact squares: oracle only
-            else:
-                corr = True
+            corr = True
             o, ans, exc = impl.run(c)
             results.append((c, o, ans, exc))
+            if o is not None and impl.poked is not None:
+                ctx.count("caller-arrays-overwritten-afterwards")
+                if impl.poked != o:
+                    k = [k for k in o if impl.poked[k] != o[k]][0]
+                    ctx.fail({"kind": "aliasing", "cls": c.cls, "ctor": c.label(), "observable": k},
+                             f"{c.cls} {c.label()} ops={c.ops}: {k} changes when the caller overwrites "
+                             f"the arrays it handed to the constructor",
+                             {"case": c.describe(), "observable": k, "before": str(o[k]),
+                              "after": str(impl.poked[k])})
             nontriv = c.N >= 2 and len(c.edges) >= 1
             rq = model_request(c)
             ctx.case(rq, nontriv, {"request": rq[:400]} if c.N <= 4 else None)
             ctx.count(f"cls:{c.cls}")
             ctx.count(f"ctor:{c.label()}")
             for op in c.ops:
-                ctx.count(f"op:{op}")
+                ctx.count("op:" + op.split("=")[0])
+            if len(c.ops) >= 2:
+                ctx.count("history:%d-statements" % len(c.ops))
+            if c.ctor in ("dense", "coo") and c.form != "list":
+                ctx.count("dtype:" + c.adtype)
+            if c.w is not None:
+                ctx.count("weights:" + c.wform)
             ctx.count("directed" if c.directed else "undirected")
             ctx.count("N=%s" % (c.N if c.N <= 4 else ("5-12" if c.N <= 12 else "13-30")))
             ctx.count("links=%s" % (len(c.edges) if len(c.edges) <= 1 else ">1"))
